@@ -211,6 +211,7 @@ def _skolem_view_eq(a, b, label):
         return extern.view_eq(a, b)       # concrete replay
     c = sym.ctx()
     k = SInt(c.fresh_int('sk'))
+    sym.note_index(k)
     # uval facts: ubit(uval(arr, n), n, k) == arr[k] instantiated at the skolem index
     from . import ints
     for (u, nt, ba) in getattr(c, 'uval_terms', []):
@@ -441,7 +442,8 @@ class Shape:
     in force (lsb0, bytealigned, mxfp_overflow)."""
 
     def __init__(self, name, build, real=None, opts=None, loop_bound=None, timeout_ms=None, note='', props=None, stable=True,
-                 gen=None):
+                 gen=None, bounded_only=False):
+        self.bounded_only = bounded_only   # True: no symbolic exploration at all (body outside the prover); bounded stand-in only
         self.gen = gen            # optional: rng -> concrete input dict, for the bounded stand-in (domains the default
                                   # small-input generator cannot reach)
         self.props = set(props) if props is not None else None
